@@ -483,10 +483,14 @@ func E2EMain(args []string) {
 		childBeh(args[1], strings.Split(args[2], ","))
 		return
 	}
+	if len(args) == 1 && args[0] == "seq" {
+		childSeq()
+		return
+	}
 	if len(args) == 2 && args[0] == "scenario" {
 		childScenario(args[1])
 		return
 	}
-	fmt.Fprintln(os.Stderr, "usage: e2e beh <site> <kind,kind..> | e2e scenario <name>")
+	fmt.Fprintln(os.Stderr, "usage: e2e beh <site> <kind,kind..> | e2e scenario <name> | e2e seq")
 	os.Exit(2)
 }
